@@ -1082,8 +1082,10 @@ enum Sop {
     Bytes(usize),
     Skip(usize),
     SeekRel(isize),
+    /// writer only: `allocate(n, false)` at the cursor (the reader skips it)
+    Alloc(usize),
 }
-const SOPS: [Sop; 11] = [Sop::U8, Sop::U16, Sop::U32, Sop::I16, Sop::F32, Sop::Bytes(3), Sop::Bytes(5), Sop::Skip(1), Sop::Skip(61), Sop::SeekRel(-2), Sop::SeekRel(62)];
+const SOPS: [Sop; 12] = [Sop::U8, Sop::U16, Sop::U32, Sop::I16, Sop::F32, Sop::Bytes(3), Sop::Bytes(5), Sop::Skip(1), Sop::Skip(61), Sop::SeekRel(-2), Sop::SeekRel(62), Sop::Alloc(8)];
 
 fn stream_bytes(size: usize) -> Vec<u8> {
     (0..size).map(|i| ((i * 37 + i / 256 * 11 + 5) % 251) as u8).collect()
@@ -1113,6 +1115,7 @@ fn run_stream_seq(a: &mut BinArchive, data: &mut Vec<u8>, e: End, start: usize, 
                     r.seek(cur);
                     continue;
                 }
+                Sop::Alloc(_) => continue,
             };
             let ok = in_range(cur, width, size);
             let got: Result<Vec<u8>, String> = match op {
@@ -1162,7 +1165,36 @@ fn run_stream_seq(a: &mut BinArchive, data: &mut Vec<u8>, e: End, start: usize, 
                     w.seek(cur);
                     continue;
                 }
+                Sop::Alloc(n) => {
+                    // insert n zero bytes at the cursor (appending at the end is always accepted;
+                    // elsewhere the cursor must be an aligned address inside the data)
+                    let size_now = data.len();
+                    let valid = cur == size_now || (cur < size_now && cur % 4 == 0 && size_now % 4 == 0);
+                    let got = w.allocate(*n, false).map_err(|x| x.to_string());
+                    match (&got, valid) {
+                        (Ok(()), true) => {
+                            let at = cur;
+                            for _ in 0..*n {
+                                data.insert(at, 0);
+                            }
+                        }
+                        (Err(_), false) => {}
+                        (Ok(()), false) if cur < size_now && cur % 4 == 0 => {
+                            // unaligned data SIZE with an aligned cursor: the statement speaks of the
+                            // request, not of the archive's size; mirror the accepted insert
+                            for _ in 0..*n {
+                                data.insert(cur, 0);
+                            }
+                        }
+                        _ => return Some(("long-lived-writer:allocate".into(), format!("one writer started at {}, sequence {:?}: step {} allocate({}) at cursor {} of {} bytes returned {:?}", start, seq, k, n, cur, size_now, got))),
+                    }
+                    if w.tell() != cur || w.size() != data.len() {
+                        return Some(("long-lived-writer:allocate".into(), format!("one writer started at {}, sequence {:?}: after allocate the cursor is {} (expected {}) and size() {} (expected {})", start, seq, w.tell(), cur, w.size(), data.len())));
+                    }
+                    continue;
+                }
             };
+            let size = data.len();
             let ok = in_range(cur, width, size);
             let got = match op {
                 Sop::U8 => w.write_u8(v as u8),
@@ -1188,8 +1220,9 @@ fn run_stream_seq(a: &mut BinArchive, data: &mut Vec<u8>, e: End, start: usize, 
             }
         }
     }
+    let size = data.len();
     match a.read_bytes(0, size) {
-        Ok(b) if b == &data[..] => None,
+        Ok(b) if b == &data[..] && a.size() == size => None,
         _ => Some(("long-lived-writer:bytes".into(), format!("after the writer sequence {:?} from {} the archive bytes differ from the model", seq, start))),
     }
 }
@@ -1244,6 +1277,48 @@ fn run_streams(tier: Tier) -> Tally {
             t
         })
         .reduce(Tally::new, Tally::merge)
+}
+
+/// c-string reads through a pointer annotation whose DESTINATION lies at, just past or far past
+/// the end of the data (a dangling pointer, e.g. after a truncate): whatever is returned, the
+/// call must not panic in either build and must not change the archive
+fn run_dangling(t: &mut Tally) -> Vec<(String, String, Value)> {
+    let mut out = Vec::new();
+    for e in [End::Little, End::Big] {
+        for size in [4usize, 8, 9, 12] {
+            for dest in [0usize, 1, size - 1, size, size + 1, size + 4, 1 << 31, (1usize << 32) + 1, usize::MAX - 1, usize::MAX] {
+                for cell in [0usize, size / 4 * 4 - 4] {
+                    t.cases += 1;
+                    t.calls += 3;
+                    let r = util::catch(|| -> Result<Option<String>, String> {
+                        let mut a = BinArchive::new(arch::endian(e));
+                        a.allocate_at_end(size);
+                        let bytes: Vec<u8> = (0..size).map(|i| 0x41 + i as u8).collect();
+                        a.write_bytes(0, &bytes).map_err(|x| x.to_string())?;
+                        if a.write_pointer(cell, Some(dest)).is_err() {
+                            return Ok(None); // the library may refuse such a pointer
+                        }
+                        let before = arch::observe(&a);
+                        let _ = a.read_c_string(cell);
+                        let _ = mila::BinArchiveReader::new(&a, cell).read_c_string();
+                        let _ = a.read_pointer(cell);
+                        if arch::observe(&a) != before {
+                            return Ok(Some("the archive changed".into()));
+                        }
+                        Ok(None)
+                    });
+                    let case = json!({"part": "dangling", "endian": format!("{:?}", e), "size": size, "dest": dest.to_string(), "cell": cell});
+                    match r {
+                        Err(p) => out.push((format!("panic@{}:read_c_string", p.location), format!("read_c_string({}) through a pointer to {} on a {}-byte archive panicked: {}", cell, dest, size, p.message), case)),
+                        Ok(Ok(Some(m))) => out.push(("read_c_string:changed".into(), m, case)),
+                        Ok(Err(m)) => out.push(("machinery:dangling-setup".into(), m, case)),
+                        Ok(Ok(None)) => {}
+                    }
+                }
+            }
+        }
+    }
+    out
 }
 
 /// stream read_bytes / positional read_bytes with counts around 2^16, 2^20 and 2^24 on a 17 MiB archive
@@ -1310,6 +1385,9 @@ fn explore(ctx: &Ctx) -> Outcome {
     {
         let mut t = Tally::new();
         for (sig, summary, case) in run_huge_counts(&mut t) {
+            t.violate(sig, summary, case);
+        }
+        for (sig, summary, case) in run_dangling(&mut t) {
             t.violate(sig, summary, case);
         }
         total.absorb(t);
@@ -1382,6 +1460,10 @@ fn replay(_ctx: &Ctx, case: &Value) -> Vec<Violation> {
         let seq: Vec<Sop> = case["seq"].as_array().map(|a| a.iter().map(|i| SOPS[i.as_u64().unwrap_or(0) as usize % SOPS.len()]).collect()).unwrap_or_default();
         let mut t = Tally::new();
         return stream_case(size, e, start, &seq, &mut t).map(|(sig, summary)| vec![Violation { sig, summary, case: case.clone() }]).unwrap_or_default();
+    }
+    if case["part"] == "dangling" {
+        let mut t = Tally::new();
+        return run_dangling(&mut t).into_iter().filter(|(_, _, c)| c == case).map(|(sig, summary, c)| Violation { sig, summary, case: c }).collect();
     }
     if case["part"] == "huge" {
         let mut t = Tally::new();
